@@ -243,6 +243,13 @@ def main(a) -> int:
                 own = json.load(f)["breaks_property"]
             tasks.append(("seed:" + sid, own, repo, 1))
 
+        try:
+            with open(os.path.join(VERIF, "silent", "KNOWN_LIMITS.json")) as f:
+                limits = {k: set(v["checks"]) for k, v in json.load(f).items() if not k.startswith("_")}
+        except FileNotFoundError:
+            limits = {}
+        known_limit_hits = []
+
         def work(t):
             kind, c, repo, want = t
             rc, out = _run(c, repo)
@@ -250,6 +257,10 @@ def main(a) -> int:
         with ThreadPoolExecutor(jobs) as ex:
             for (kind, c, repo, want), rc, out in ex.map(work, tasks):
                 ok = rc == want and (want == 0 or re.search(r"^VIOLATION property=%s " % c, out, re.M))
+                if not ok and kind.startswith("refactor:") and c in limits.get(kind.split(":", 1)[1], ()):
+                    known_limit_hits.append((kind, c, rc))
+                    print(f"lim  {kind:22s} {c} rc={rc} (known limit: silent/KNOWN_LIMITS.json)", flush=True)
+                    continue
                 line = f"{'ok  ' if ok else 'FAIL'} {kind:22s} {c} rc={rc} (expected {want})"
                 if kind.startswith("seed:") and ok:
                     rules = sorted(set(re.findall(r"^\[%s\] (R-[A-Z0-9.]+)" % c, out, re.M)))
@@ -260,7 +271,7 @@ def main(a) -> int:
                     failures.append(line + " :: " + " | ".join(x[:200] for x in tail))
     finally:
         shutil.rmtree(root, ignore_errors=True)
-    print(f"selftest: {len(tasks)} runs, {len(failures)} failures")
+    print(f"selftest: {len(tasks)} runs, {len(failures)} failures, {len(known_limit_hits)} alarms on refactorings listed as known limits")
     for f in failures:
         print("  " + f)
     return 1 if failures else 0
